@@ -137,4 +137,62 @@ theorem leafRel_keys {R : TPath → String → String → Prop} : ∀ (kvs kvs' 
     obtain ⟨v', r', rfl, _, hr⟩ := h
     simp only [List.map_cons, leafRel_keys r r' p hr]
 
+/-! an error of the generic walk is the error of the leaf function at one string leaf -/
+mutual
+theorem walk_err_leaf (f : TPath → String → Out Val) : ∀ (v : Val) (p : TPath) (e : Err), walk f p v = .err e →
+    ∃ q s, (q, s) ∈ leaves p v ∧ f q s = .err e
+  | .str s, p, e, h => by simp only [walk] at h; exact ⟨p, s, by simp [leaves], h⟩
+  | .map kvs, p, e, h => by
+    simp only [walk] at h
+    split at h <;> cases h
+    simpa only [leaves] using walkKVs_err_leaf f kvs p e ‹_›
+  | .seq xs, p, e, h => by
+    simp only [walk] at h
+    split at h <;> cases h
+    simpa only [leaves] using walkList_err_leaf f xs p e ‹_›
+  | .null, p, e, h => by simp only [walk] at h; cases h
+  | .bool b, p, e, h => by simp only [walk] at h; cases h
+  | .int b, p, e, h => by simp only [walk] at h; cases h
+  | .float b, p, e, h => by simp only [walk] at h; cases h
+theorem walkKVs_err_leaf (f : TPath → String → Out Val) : ∀ (kvs : List (String × Val)) (p : TPath) (e : Err),
+    walkKVs f p kvs = .err e → ∃ q s, (q, s) ∈ leavesKVs p kvs ∧ f q s = .err e
+  | [], p, e, h => by simp only [walkKVs] at h; cases h
+  | (k, v) :: r, p, e, h => by
+    simp only [walkKVs] at h
+    split at h
+    · split at h <;> cases h
+      obtain ⟨q, s, hm, hl⟩ := walkKVs_err_leaf f r p e ‹_›
+      exact ⟨q, s, by simp only [leavesKVs, List.mem_append]; exact .inr hm, hl⟩
+    · cases h
+      obtain ⟨q, s, hm, hl⟩ := walk_err_leaf f v _ e ‹_›
+      exact ⟨q, s, by simp only [leavesKVs, List.mem_append]; exact .inl hm, hl⟩
+    · cases h
+theorem walkList_err_leaf (f : TPath → String → Out Val) : ∀ (xs : List Val) (p : TPath) (e : Err),
+    walkList f p xs = .err e → ∃ q s, (q, s) ∈ leavesList p xs ∧ f q s = .err e
+  | [], p, e, h => by simp only [walkList] at h; cases h
+  | v :: r, p, e, h => by
+    simp only [walkList] at h
+    split at h
+    · split at h <;> cases h
+      obtain ⟨q, s, hm, hl⟩ := walkList_err_leaf f r p e ‹_›
+      exact ⟨q, s, by simp only [leavesList, List.mem_append]; exact .inr hm, hl⟩
+    · cases h
+      obtain ⟨q, s, hm, hl⟩ := walk_err_leaf f v _ e ‹_›
+      exact ⟨q, s, by simp only [leavesList, List.mem_append]; exact .inl hm, hl⟩
+    · cases h
+end
+
+/-- nothing substituted: the only possible error is a cast error, at a string leaf of the document, naming its path;
+    a panic is impossible -/
+theorem castTree_err (c : Cfg) (p : TPath) (v : Val) (e : Err) (h : castTree c p v = .err e) :
+    ∃ q s, (q, s) ∈ leaves p v ∧ castOnly c q s = .err e ∧ e = .cast (pathString q) := by
+  obtain ⟨q, s, hm, hl⟩ := walk_err_leaf (castOnly c) v p e h
+  refine ⟨q, s, hm, hl, ?_⟩
+  unfold castOnly at hl
+  split at hl
+  · cases hl
+  · split at hl
+    · cases hl
+    · cases hl; rfl
+
 end CV.Interp
